@@ -177,6 +177,7 @@ where
         acc.decisions += stats.decisions;
         acc.points += stats.points;
         acc.max_depth = acc.max_depth.max(stats.max_depth as u64);
+        acc.count("max_steps_in_one_execution (the engine ends an execution as a livelock at 2000000, magnitude families raise that)", stats.max_steps);
         acc.max_spent = acc.max_spent.max(stats.max_spent as u64);
         acc.conflicting_execs += stats.conflicting_execs;
         acc.timer_fires += stats.timer_fires;
